@@ -30,8 +30,8 @@ const char* kBehaviours[] = { "orderly", "close-mid-request", "half-close", "rst
                               "silence", "partial-then-silence", "tmo", "tmoreply", "file", "file-abort", "async-abort", "never-close", "stream",
                               "silence-close-near-timeout", "silence-abort-near-timeout", "stall-beyond-timeout",
                               "abandon-at-once-close", "abandon-at-once-abort", "abandon-at-once-half-close",
-                              "tmo-then-close", "tmo-then-abort", "stall-resume-trickle", "request-then-abort-quickly", "async-close" };
-constexpr int kNumBeh = 26;
+                              "tmo-then-close", "tmo-then-abort", "stall-resume-trickle", "request-then-abort-quickly", "async-close", "tmo-moved" };
+constexpr int kNumBeh = 27;
 
 Json gen(sim::Rng& rng, int tier)
 {
